@@ -157,11 +157,57 @@ Theorem C18_negative_length : forall p family wh ag al n addr addrlen fam2,
 Proof. exact negative_length. Qed.
 Print Assumptions C18_negative_length.
 
-(* "identical field values" fails for TTLs >= 2^31: (int) conversion (finding ttl-sign) *)
-Theorem C18_ttl_identical_refuted :
-  exists rec r a ttl,
-    parse_addr_reply LEG_AF_INET false (Parsed rec) false true 1 (Some 1) = Ok r /\
-    r_answers rec = [mkRR [119] ARES_CLASS_IN ttl (RD_A a)] /\ 0 <= ttl < 2 ^ 32 /\
-    ar_written r <> [(a, ttl)].
-Proof. exact addr_ttl_identical_refuted. Qed.
-Print Assumptions C18_ttl_identical_refuted.
+(* TTLs (with fixes/C18-ttl-int-clamp.patch): never negative, within int; the record's value
+   whenever it fits, 0 for a TTL with the top bit set (RFC 2181 s.8) *)
+Theorem C18_ttl_range : forall family rec q qs want_host cap r,
+  family = LEG_AF_INET \/ family = LEG_AF_INET6 ->
+  r_questions rec = q :: qs -> 0 <= cap <= LEG_INT_MAX -> ttls_nonneg (r_answers rec) ->
+  parse_addr_reply family false (Parsed rec) want_host true cap (Some cap) = Ok r ->
+  Forall (fun e => 0 <= snd e <= LEG_INT_MAX) (ar_written r).
+Proof. exact addr_ttl_range. Qed.
+Print Assumptions C18_ttl_range.
+
+Theorem C18_ttl_identity : forall z, 0 <= z <= LEG_INT_MAX -> ttl_to_int z = z.
+Proof. exact ttl_to_int_id. Qed.
+Print Assumptions C18_ttl_identity.
+
+(* ---- "what it returns is released completely by its matching free function" ----
+   Ownership ledger (Legacy/LegacyMem.v): every allocation of the conversion code is a block, the
+   allocator's answers are an arbitrary function [fail]; ares_free_data / ares_free_hostent walk
+   the result as the C code does.  For EVERY record, request shape and allocator behaviour: no
+   invalid/double free (the results are Ok), a call that does not succeed hands out nothing and
+   leaves the ledger empty, and after the matching free function the ledger is empty. *)
+From CAres.Legacy Require Import LegacyMem LegacyMem_proofs.
+
+Theorem C18_released_lists : forall fail items_of neg p,
+  exists st out m', list_parser_mem fail items_of neg p mem0 = Ok (st, out, m') /\
+    (st <> ARES_SUCCESS -> out = [] /\ m_live m' = []) /\
+    exists m'', free_data out m' = Ok m'' /\ m_live m'' = [].
+Proof. exact lists_release. Qed.
+Print Assumptions C18_released_lists.
+
+Theorem C18_released_soa : forall fail neg p,
+  exists st out m', soa_mem fail neg p mem0 = Ok (st, out, m') /\
+    (st <> ARES_SUCCESS -> out = None /\ m_live m' = []) /\
+    exists m'', free_data (match out with Some n => [n] | None => [] end) m' = Ok m'' /\ m_live m'' = [].
+Proof. exact soa_release. Qed.
+Print Assumptions C18_released_soa.
+
+Theorem C18_released_ns : forall fail neg p, released (ns_mem fail neg p mem0).
+Proof. exact ns_release. Qed.
+Print Assumptions C18_released_ns.
+
+Theorem C18_released_ptr : forall fail neg p addr_given, released (ptr_mem fail neg p addr_given mem0).
+Proof. exact ptr_release. Qed.
+Print Assumptions C18_released_ptr.
+
+Theorem C18_released_addr : forall fail family neg p want_host, released (addr_reply_mem fail family neg p want_host mem0).
+Proof. exact addr_release. Qed.
+Print Assumptions C18_released_addr.
+
+(* with an allocator that never fails the list parsers succeed with one node per projected item *)
+Theorem C18_nofail_lists : forall fail items_of rec m, wf m -> (forall j, fail j = false) -> r_answers rec <> [] ->
+  exists out m', list_parser_mem fail items_of false (Parsed rec) m = Ok (ARES_SUCCESS, out, m') /\
+                 length out = length (flat_map items_of (r_answers rec)).
+Proof. exact list_parser_nofail. Qed.
+Print Assumptions C18_nofail_lists.
